@@ -78,7 +78,6 @@ NAMEID_POOL = [
 ]
 SAMLP = "urn:oasis:names:tc:SAML:2.0:protocol"
 SAML = "urn:oasis:names:tc:SAML:2.0:assertion"
-STATUS_SUCCESS = "urn:oasis:names:tc:SAML:2.0:status:Success"
 
 _cache = {}
 
@@ -631,7 +630,7 @@ def directed_cases():
 def gen_cases(rng, tier):
     for c in directed_cases():
         yield c
-    n = 2500 if tier == "quick" else 40000
+    n = 5000 if tier == "quick" else 40000
     for k in range(n):
         yield gen_history(rng, 40, nosoap=(k % 3 == 0))
 
